@@ -485,7 +485,7 @@ impl Prop for C19 {
         "C19"
     }
     fn cases(&self, tier: Tier) -> u64 {
-        tier.pick(800, 8_000)
+        tier.pick(800, 60_000)
     }
     fn max_shrink_iters(&self) -> u32 {
         60
